@@ -130,9 +130,16 @@ func planC08sweep(c *Ctx, run int64) *Plan {
 		switch n.V.K {
 		case 's':
 			add("alter", n.Ptr, Op{I: int64(r.IntN(1 << 20))})
+			add("append", n.Ptr, Op{S2: Pick(r, []string{"T23:59:59", " ", "0", ".0", "a", "Z", "-", "%"})})
 		case 'n':
 			add("alter", n.Ptr, Op{I: 1})
 			add("alter", n.Ptr, Op{I: -1})
+			if strings.ContainsAny(n.V.S, ".eE") {
+				// a change at the scale of the last representable digits of a float
+				add("numtext", n.Ptr, Op{S2: n.V.S + "00000001"})
+				add("numtext", n.Ptr, Op{S2: strings.Replace(n.V.S, "-", "", 1)})
+				add("numtext", n.Ptr, Op{S2: n.V.S + "e1"})
+			}
 		case 't', 'f':
 			add("alter", n.Ptr, Op{})
 		case 'a':
@@ -298,6 +305,16 @@ func applyStoreFault(root *JV, op Op) ([]byte, bool) {
 		default:
 			return nil, false
 		}
+	case "append":
+		if v.K != 's' {
+			return nil, false
+		}
+		v.S += op.S2
+	case "numtext":
+		if v.K != 'n' || v.S == op.S2 {
+			return nil, false
+		}
+		v.S = op.S2
 	case "remove":
 		if parent == nil || parent.K != 'o' || !parent.Del(key) {
 			return nil, false
